@@ -44,6 +44,9 @@ pub struct Machine {
     /// the embedder's handles on the shared storage and app set (what StateMachineBuilder is given)
     pub storage: Rc<AMutex<SimStorage>>,
     pub app_set: Rc<AMutex<SimAppSet>>,
+    /// events taken so far / hold the shared storage during the next poll (Script::busy_storage_mask)
+    pub took: usize,
+    pub hold_storage_next: bool,
 }
 
 pub fn state_view(s: &State) -> StateView {
@@ -201,7 +204,7 @@ impl Machine {
                 }
             }
         }
-        Machine { w: w.clone(), stream: Some(stream), ctl, root: Arc::new(Wk(AtomicUsize::new(1))), polled_at: 0, ended: false, polls: 0, storage, app_set }
+        Machine { w: w.clone(), stream: Some(stream), ctl, root: Arc::new(Wk(AtomicUsize::new(1))), polled_at: 0, ended: false, polls: 0, storage, app_set, took: 0, hold_storage_next: false }
     }
 
     pub fn woken(&self) -> bool {
@@ -211,6 +214,18 @@ impl Machine {
     /// Poll the stream once. Returns Some(event) if the consumer took one.
     pub fn poll_once(&mut self) -> Option<EventView> {
         let Some(stream) = self.stream.as_mut() else { return None };
+        // an embedder that reacts to the event it just took by using the shared storage: it holds the mutex during this
+        // poll (the machine has to wait for it; the release wakes it)
+        let shared_storage = self.storage.clone();
+        let _embedder_guard = if std::mem::take(&mut self.hold_storage_next) {
+            let g = shared_storage.try_lock();
+            if g.is_some() {
+                lock(&self.w).log.push(Op::EmbedderHoldsStorage);
+            }
+            g
+        } else {
+            None
+        };
         self.polled_at = self.root.0.load(Ordering::SeqCst);
         self.polls += 1;
         let wk = futures::task::waker(self.root.clone());
@@ -235,9 +250,13 @@ impl Machine {
                     if self.app_set.try_lock().is_none() {
                         g.log.push(Op::LockHeldAtEmission { which: "app set" });
                     }
-                    if self.storage.try_lock().is_none() {
+                    if _embedder_guard.is_none() && self.storage.try_lock().is_none() {
                         g.log.push(Op::LockHeldAtEmission { which: "storage" });
                     }
+                    if (g.script.busy_storage_mask >> (self.took % 32)) & 1 == 1 {
+                        self.hold_storage_next = true;
+                    }
+                    self.took += 1;
                 }
                 // Ready(Some) owes no wake-up: the consumer may poll again at will
                 self.root.0.fetch_add(1, Ordering::SeqCst);
